@@ -165,6 +165,31 @@ def near(a, b, rtol=1e-9, atol=1e-12):
     return abs(Fraction(a) - Fraction(b)) <= Fraction(rtol) * max(abs(Fraction(a)), abs(Fraction(b))) + Fraction(atol)
 
 
+def ratio_roundtrip_tolerance(case, nh, base=1e-7):
+    """Recovering a ratio divides by (parent height - bound of the child).  -> the relative tolerance the round trip can
+    be held to on these heights (a conditioning fact: 64 ulps of the largest height over the smallest such difference),
+    or None when two heights have collided in double precision (the forward map lost the parameter: nothing to recover)."""
+    n = case["n"]
+    it = trees.index_tree(case["tree"])
+    lh = leaf_heights(case["dates"])
+    bound = {}
+
+    def bnd(u):
+        if isinstance(u, int):
+            bound[u] = lh[u]
+            return lh[u]
+        b = max(bnd(u[1]), bnd(u[2]))
+        bound[u[0]] = b
+        return b
+    bnd(it)
+    gaps = [nh[p] - bound[c] for p, c in trees.edges(it) if c >= n]
+    if any(g <= 0 for g in gaps):
+        return None
+    if not gaps:
+        return base
+    return max(base, 64 * 2.3e-16 * max(abs(v) for v in nh) / min(gaps))
+
+
 def property_on_impl(case, out):
     n = case["n"]
     it = trees.index_tree(case["tree"])
@@ -186,24 +211,11 @@ def property_on_impl(case, out):
                 return "order", f"row {r}: parent {p} ({nh[p]!r}) younger than child {c} ({nh[c]!r})"
             if not near(bl[c], nh[p] - nh[c], 1e-9, 1e-10):
                 return "branch", f"row {r}: branch {c} = {bl[c]!r} but parent-child = {nh[p] - nh[c]!r}"
-        # recovering a ratio divides by (parent height - bound of the child): the round trip is as accurate as that
-        # difference is large against the rounding of the heights themselves (a conditioning fact, not a tolerance)
         rt = 1e-7
         if case["kind"] == "ratio":
-            bound = {}
-
-            def bnd(u):
-                if isinstance(u, int):
-                    bound[u] = lh[u]
-                    return lh[u]
-                b = max(bnd(u[1]), bnd(u[2]))
-                bound[u[0]] = b
-                return b
-            bnd(it)
-            gaps = [nh[p] - bound[c] for p, c in trees.edges(it) if c >= n]
-            gaps = [g for g in gaps if g > 0]
-            if gaps:
-                rt = max(rt, 64 * 2.3e-16 * max(abs(v) for v in nh) / min(gaps))
+            rt = ratio_roundtrip_tolerance(case, nh)
+            if rt is None:
+                continue        # heights collided in double precision: the parameters cannot be recovered from them
         for k, (a, b) in enumerate(zip(out["xinv"][r], case["x"][r])):
             if not near(a, b, rt, 1e-9):
                 return "roundtrip", f"row {r}: inv(fwd(x))[{k}] = {a!r} but x = {b!r}"
